@@ -1,4 +1,5 @@
 import PysnarkModel.Lemmas.Bits
+import PysnarkModel.Lemmas.IteTag
 import PysnarkModel.Lemmas.InvVal
 /-!
 # Secret-index array access (C15): values, run-time range check, in-circuit soundness
@@ -410,7 +411,8 @@ theorem ifThenElse_num {c : LinComb} {t f r : Val} {s s' : St} (ht : t.isNum = t
           let f' ← (pure f : M Val)
           let d ← subV t f'
           let prod ← mulLV c d
-          addV f' prod) s0 = .ok (r, s0') → r.isNum = true ∧ r.ival = f.ival + c.value * (t.ival - f.ival) := by
+          let ret ← addV f' prod
+          iteTag t f' ret) s0 = .ok (r, s0') → r.isNum = true ∧ r.ival = f.ival + c.value * (t.ival - f.ival) := by
         intro s0 s0' hk
         obtain ⟨f', s1, h1, hk1⟩ := bind_ok.mp hk
         obtain ⟨hff, -⟩ := pure_ok.mp h1
@@ -419,7 +421,12 @@ theorem ifThenElse_num {c : LinComb} {t f r : Val} {s s' : St} (ht : t.isNum = t
         obtain ⟨prod, s3, h3, hk3⟩ := bind_ok.mp hk2
         obtain ⟨hd, hdv⟩ := subV_num ht hf h2
         obtain ⟨y, rfl, hy⟩ := mulLV_num hd h3
-        obtain ⟨z, rfl, hz⟩ := addV_num_lc hf hk3
+        obtain ⟨ret, s4, h4, hk4⟩ := bind_ok.mp hk3
+        obtain ⟨z, rfl, hz⟩ := addV_num_lc hf h4
+        -- numeric branches are not `LinCombBool`s: the value is returned as it is
+        have hnb : ∀ g : Val, bothLcb t g = false := by intro g; cases t <;> simp [Val.isNum] at ht <;> rfl
+        rw [iteTag_other _ (hnb _)] at hk4
+        obtain ⟨rfl, -⟩ := pure_ok.mp hk4
         exact ⟨rfl, by simp [hz, hy, hdv]⟩
       cases t <;> simp [Val.isNum] at ht
       · exact key h
